@@ -47,13 +47,20 @@ def run(tier, seed):
             vel = np.ones(n) * vel[0]
         xr = rnd.choice([50.0, 150.0, 400.0, rnd.uniform(10, 800)])
         ang = rnd.choice([rnd.uniform(0.5, 89.5), rnd.uniform(20, 70), rnd.uniform(1, 15)])
+        # the same model written down with whole numbers in integer arrays, float32 arrays or plain lists is the same model
+        encoding = rnd.choice(["float64", "float64", "float64", "int", "float32", "list"])
+        if encoding != "float64":
+            inter = np.round(inter)
+            vel = np.round(vel)
         rz = np.array([inter[-1] * 0.5])
+        inter_arg, vel_arg = {"float64": (inter, vel), "int": (inter.astype(np.int64), vel.astype(np.int64)), "float32": (inter.astype(np.float32), vel.astype(np.float32)),
+                              "list": (np.array(inter.tolist()), np.array([int(v) for v in vel]))}[encoding]
         with quiet(), np.errstate(all="ignore"):
             try:
-                ray, tt, dist, per = M._tracerays(inter, vel, np.array([0, 0]), xr, rz, ang, maxnumiterations=n * 3, keep_upgoing=False, trace_layers=True)
+                ray, tt, dist, per = M._tracerays(inter_arg, vel_arg, np.array([0, 0]), xr, rz, ang, maxnumiterations=n * 3, keep_upgoing=False, trace_layers=True)
             except Exception as e:
                 ray, tt, dist, per = None, repr(e), None, None
-        stim = {"interfaces": inter.tolist(), "velocities": vel.tolist(), "xr": xr, "angle_deg": ang}
+        stim = {"interfaces": inter.tolist(), "velocities": vel.tolist(), "xr": xr, "angle_deg": ang, "array_encoding": encoding}
         if ray is None:
             st.case(stim, nontrivial=False)
             st.disagree(stim, "a ray", tt, "_tracerays raised")
@@ -62,6 +69,7 @@ def run(tier, seed):
         crossed = len([p for p in pts[1:] if p[0] < xr])
         st.case(stim, nontrivial=crossed >= 2, sample={"stimulus": stim, "points": pts[:4], "tt": tt} if len(st.samples) < 3 else None)
         st.count(f"layers={n}")
+        st.count(f"arrays={encoding}")
         st.count("reported" if tt is not None else "not-reported")
         # the property's own oracles on the returned ray --------------------------------------
         problems = []
